@@ -91,7 +91,7 @@ class Book:
         return [k for k, p in self.live.items() if p == "T"]
 
 
-HANDLER_KINDS = ["err500", "panic", "drop", "okclose", "abort"]
+HANDLER_KINDS = ["err500", "panic", "drop", "okclose", "abort", "reset"]
 IDLE_KINDS = ["close", "malformed", "aborthead", "abortbody"]
 
 
